@@ -443,10 +443,11 @@ type FuncFacts struct {
 }
 
 type FactEngine struct {
-	summarising int
-	p           *Program
-	fx          *Effects
-	cache       map[*FuncSrc]*FuncFacts
+	nonNilGlobals map[*types.Var]bool
+	summarising   int
+	p             *Program
+	fx            *Effects
+	cache         map[*FuncSrc]*FuncFacts
 	// EntryFacts optionally supplies facts at the entry of a function
 	// (used for closures invoked synchronously at a known site).
 	objIDs  map[types.Object]int
@@ -2157,6 +2158,11 @@ func (ff *FuncFacts) assign(x *ast.AssignStmt, st *State) *State {
 				}
 				st = ff.resultShape(st, lt, call)
 			}
+			// err = ErrSomething: a package-level error value that is initialised
+			// non-nil and assigned nowhere else
+			if g := ff.globalOf(x.Rhs[i]); g != nil && ff.eng.nonNilGlobal(g) && (lt.K == 'v' || lt.K == 'f') {
+				st = st.add(mkFact(false, "eq", lt, TNil()))
+			}
 		}
 	}
 	// b = true / b = false
@@ -3657,4 +3663,109 @@ func (ff *FuncFacts) edgeStates(b *cfg.Block, st *State, i int) []*State {
 		return []*State{outs[i]}
 	}
 	return vs
+}
+
+// globalOf: the package-level variable an expression names, if any.
+func (ff *FuncFacts) globalOf(e ast.Expr) *types.Var {
+	var id *ast.Ident
+	switch x := unparen(e).(type) {
+	case *ast.Ident:
+		id = x
+	case *ast.SelectorExpr:
+		if _, isSel := ff.info().Selections[x]; isSel {
+			return nil
+		}
+		id = x.Sel
+	default:
+		return nil
+	}
+	v, ok := ff.info().Uses[id].(*types.Var)
+	if !ok || v.IsField() || v.Pkg() == nil || v.Parent() != v.Pkg().Scope() {
+		return nil
+	}
+	return v
+}
+
+// nonNilGlobal: a package-level variable of the module declared with an
+// initialiser that cannot be nil (errors.New, fmt.Errorf, &T{...}, T{...})
+// and neither assigned nor address-taken anywhere in the module.
+func (e *FactEngine) nonNilGlobal(g *types.Var) bool {
+	if e.nonNilGlobals == nil {
+		e.nonNilGlobals = map[*types.Var]bool{}
+		for _, pkg := range e.p.Mod {
+			info := pkg.TypesInfo
+			for _, f := range pkg.Syntax {
+				for _, d := range f.Decls {
+					gd, ok := d.(*ast.GenDecl)
+					if !ok || gd.Tok != token.VAR {
+						continue
+					}
+					for _, sp := range gd.Specs {
+						vs, ok := sp.(*ast.ValueSpec)
+						if !ok || len(vs.Values) != len(vs.Names) {
+							continue
+						}
+						for i, nm := range vs.Names {
+							v, ok := info.Defs[nm].(*types.Var)
+							if !ok {
+								continue
+							}
+							switch x := unparen(vs.Values[i]).(type) {
+							case *ast.CallExpr:
+								if fn, ok := typeutil.Callee(info, x).(*types.Func); ok && (fn.FullName() == "errors.New" || fn.FullName() == "fmt.Errorf") {
+									e.nonNilGlobals[v] = true
+								}
+							case *ast.UnaryExpr:
+								if _, isLit := unparen(x.X).(*ast.CompositeLit); isLit && x.Op == token.AND {
+									e.nonNilGlobals[v] = true
+								}
+							}
+						}
+					}
+				}
+			}
+		}
+		for _, pkg := range e.p.Mod {
+			info := pkg.TypesInfo
+			drop := func(x ast.Expr) {
+				var id *ast.Ident
+				switch y := unparen(x).(type) {
+				case *ast.Ident:
+					id = y
+				case *ast.SelectorExpr:
+					id = y.Sel
+				default:
+					return
+				}
+				if v, ok := info.Uses[id].(*types.Var); ok {
+					delete(e.nonNilGlobals, v)
+				}
+			}
+			for _, f := range pkg.Syntax {
+				ast.Inspect(f, func(n ast.Node) bool {
+					switch x := n.(type) {
+					case *ast.AssignStmt:
+						for _, l := range x.Lhs {
+							drop(l)
+						}
+					case *ast.IncDecStmt:
+						drop(x.X)
+					case *ast.UnaryExpr:
+						if x.Op == token.AND {
+							drop(x.X)
+						}
+					case *ast.RangeStmt:
+						if x.Key != nil {
+							drop(x.Key)
+						}
+						if x.Value != nil {
+							drop(x.Value)
+						}
+					}
+					return true
+				})
+			}
+		}
+	}
+	return e.nonNilGlobals[g]
 }
